@@ -2071,6 +2071,12 @@ generalized_affine_image(const Variable var,
                            "r is the disequality relation symbol");
   }
 
+  // A modulus is only meaningful for the EQUAL relation symbol.
+  if (relsym != EQUAL && modulus != 0) {
+    throw_invalid_argument("generalized_affine_image(v, r, e, d, m)",
+                           "r != EQUAL && m != 0");
+  }
+
   // Any image of an empty grid is empty.
   if (marked_empty()) {
     return;
@@ -2079,11 +2085,6 @@ generalized_affine_image(const Variable var,
   // If relsym is not EQUAL, then we return a safe approximation
   // by adding a line in the direction of var.
   if (relsym != EQUAL) {
-
-    if (modulus != 0) {
-      throw_invalid_argument("generalized_affine_image(v, r, e, d, m)",
-                             "r != EQUAL && m != 0");
-    }
 
     if (!generators_are_up_to_date()) {
       minimize();
@@ -2271,6 +2272,12 @@ generalized_affine_image(const Linear_Expression& lhs,
                            "r is the disequality relation symbol");
   }
 
+  // A modulus is only meaningful for the EQUAL relation symbol.
+  if (relsym != EQUAL && modulus != 0) {
+    throw_invalid_argument("generalized_affine_image(e1, r, e2, m)",
+                           "r != EQUAL && m != 0");
+  }
+
   // Any image of an empty grid is empty.
   if (marked_empty()) {
     return;
@@ -2279,11 +2286,6 @@ generalized_affine_image(const Linear_Expression& lhs,
   // If relsym is not EQUAL, then we return a safe approximation
   // by adding a line in the direction of var.
   if (relsym != EQUAL) {
-
-    if (modulus != 0) {
-      throw_invalid_argument("generalized_affine_image(e1, r, e2, m)",
-                             "r != EQUAL && m != 0");
-    }
 
     if (!generators_are_up_to_date()) {
       minimize();
@@ -2411,6 +2413,12 @@ generalized_affine_preimage(const Linear_Expression& lhs,
                            "r is the disequality relation symbol");
   }
 
+  // A modulus is only meaningful for the EQUAL relation symbol.
+  if (relsym != EQUAL && modulus != 0) {
+    throw_invalid_argument("generalized_affine_preimage(e1, r, e2, m)",
+                           "r != EQUAL && m != 0");
+  }
+
   // Any preimage of an empty grid is empty.
   if (marked_empty()) {
     return;
@@ -2419,11 +2427,6 @@ generalized_affine_preimage(const Linear_Expression& lhs,
   // If relsym is not EQUAL, then we return a safe approximation
   // by adding a line in the direction of var.
   if (relsym != EQUAL) {
-
-    if (modulus != 0) {
-      throw_invalid_argument("generalized_affine_preimage(e1, r, e2, m)",
-                             "r != EQUAL && m != 0");
-    }
 
     if (!generators_are_up_to_date()) {
       minimize();
